@@ -509,6 +509,12 @@ class Interp:
                 cur = st.get(key, None) if key is not None else None
                 if isinstance(cur, tuple) and cur[:1] == ("tuple",):
                     return [val(("listappend", key), st)]
+            if ch and len(ch) >= 3 and e.attr in getattr(d, "SET_METHODS", ()) and getattr(d, "heap", False) and isinstance(e.ctx, ast.Load):
+                # obj.tags.update taken as a value: the method bound to the set that attribute holds
+                key = self._key_of(e.value, fr, st)
+                cur = st.get(key, None) if key is not None else None
+                if isinstance(cur, tuple) and cur[:1] == ("set",):
+                    return [val(("setmethod", key, e.attr), st)]
             if ch:
                 deep = getattr(d, "load_attr_interp", None)
                 if deep is not None:
